@@ -176,7 +176,7 @@ class Models(object):
         m = re.match(r'^std::string::(~?string|operator\S*|\w+)\((.*)\)( const)?$', d)
         if m:
             return string_method(m.group(1), m.group(2))
-        m = re.match(r'^std::operator(==|!=|<|\+)\((.*)\)$', d)
+        m = re.match(r'^std::operator(==|!=|<=|>=|<|>|\+)\((std::string const&.*|char const\*, std::string const&)\)$', d)
         if m:
             return string_binop(m.group(1), m.group(2))
         m = re.match(r'^std::operator<<\(std::ostream&, std::string const&\)$', d)
@@ -199,6 +199,9 @@ class Models(object):
         m = re.match(r'^std::__map_it<(.*)>::(__map_it|operator\S*|\w+)(<.*>)?\((.*)\)( const)?$', d)
         if m:
             return mapit_method(m.group(2))
+        m = re.match(r'^std::pair<std::string( const)?, (.*)>::pair\((.*)\)$', d)
+        if m:
+            return pair_ctor(m.group(2), m.group(3))
         m = re.match(r'^std::__vec_it<(.*)>::(__vec_it|operator\S*|\w+)(<.*>)?\((.*)\)( const)?$', d)
         if m:
             return vecit_method(m.group(1), m.group(2))
@@ -515,6 +518,25 @@ def string_method(name, sig):
             return 1 if v == '' else 0
         return str_eq(ex, v, '')
 
+    def copy_out(ex, args, inst):
+        """size_type copy(char* dst, size_type n, size_type pos = 0) const: no terminator is written"""
+        v = get_str(ex, args[0]).v
+        dst, n = args[1], args[2]
+        pos = args[3] if len(args) > 3 else 0
+        if isinstance(v, str) and isinstance(n, int) and isinstance(pos, int):
+            if pos > len(v):
+                raise ExecError('std::string::copy position out of range (std::out_of_range)')
+            piece = v[pos:pos + n]
+            write_cstring(ex, dst, piece, nul=False)
+            return len(piece)
+        if isinstance(v, T) and pos == 0 and isinstance(n, T) and n is tm.uf('strlen', v, sort='I'):
+            old = ex.st.side.get((dst.rid, dst.off))
+            oldv = old.v if old is not None else tm.sym('oldbuf', 'S')
+            oldv = oldv if isinstance(oldv, T) else tm.mk('str', (), oldv, 'S')
+            write_cstring(ex, dst, tm.uf('unterminated-prefix-over', v, oldv, sort='S'))
+            return n
+        raise ExecError('std::string::copy with symbolic arguments is not modelled')
+
     def length(ex, args, inst):
         v = get_str(ex, args[0]).v
         if isinstance(v, str):
@@ -579,7 +601,7 @@ def string_method(name, sig):
         return tm.ite(r, tm.iconst(0), tm.iconst(1)) if isinstance(r, T) else (0 if r else 1)
 
     table = {'string': ctor, '~string': dtor, 'operator=': assign, 'assign': assign, 'empty': empty,
-             'length': length, 'size': length, 'c_str': c_str, 'data': c_str, 'operator+=': append, 'append': append,
+             'copy': copy_out, 'length': length, 'size': length, 'c_str': c_str, 'data': c_str, 'operator+=': append, 'append': append,
              'substr': substr, 'push_back': push_back, 'clear': clear_, 'compare': compare}
     return table.get(name, unsupported)
 
@@ -607,10 +629,20 @@ def string_binop(op, sig):
         if op == '!=':
             r = str_eq(ex, a, b)
             return (1 - r) if isinstance(r, int) else tm.lnot(r)
-        if op == '<':
+        if op in ('<', '>', '<=', '>='):
             if isinstance(a, str) and isinstance(b, str):
-                return 1 if a < b else 0
-            raise ExecError('symbolic string ordering')
+                return 1 if {'<': a < b, '>': a > b, '<=': a <= b, '>=': a >= b}[op] else 0
+            if a is b:
+                return 1 if op in ('<=', '>=') else 0
+            # symbolic strings: equal strings are not ordered; otherwise the order is an uninterpreted (but consistent) predicate
+            r = str_eq(ex, a, b)
+            eq = r if isinstance(r, int) else (1 if ex.decide(r) else 0)
+            if eq:
+                return 1 if op in ('<=', '>=') else 0
+            ta = a if isinstance(a, T) else tm.mk('str', (), a, 'S')
+            tb = b if isinstance(b, T) else tm.mk('str', (), b, 'S')
+            lt = tm.uf('str_less', ta, tb, sort='B') if op in ('<', '<=') else tm.uf('str_less', tb, ta, sort='B')
+            return 1 if ex.decide(lt) else 0
     return f
 
 
@@ -870,7 +902,64 @@ def vector_method(elty, name, sig):
     def data(ex, args, inst):
         return Ptr(get_vec(ex, args[0]).buf, 0)
 
-    table = {'vector': ctor, '~vector': dtor, 'operator=': assign, 'operator[]': index, 'size': size, 'empty': empty,
+    def elem_kind():
+        return 'ptr' if dflt is NULL else ('f64' if dflt is tm.ZERO else 'i32')
+
+    def erase(ex, args, inst):
+        v = get_vec(ex, args[0], mut=True)
+        first = args[1]
+        last = args[2] if len(args) > 2 else Ptr(first.rid, first.off + es)
+        if not (isinstance(first, Ptr) and isinstance(last, Ptr)) or first.rid != v.buf or last.rid != v.buf:
+            raise ExecError('vector::erase with a foreign iterator')
+        i, j = first.off // es, last.off // es
+        if i < 0 or j > v.n or i > j:
+            ex.st.event('oob', 'vector-erase-range', i, j, v.n, ex.cur_fn)
+            return first
+        tail = [ex.load(Ptr(v.buf, k * es), es, elem_kind()) for k in range(j, v.n)]
+        for k, val in enumerate(tail):
+            ex.store(Ptr(v.buf, (i + k) * es), es, val)
+        v.n -= (j - i)
+        ex.st.mut(v.buf).size = v.n * es
+        ex.st.writes.append((args[0].rid, args[0].off, 8))
+        return first
+
+    def insert(ex, args, inst):
+        v = get_vec(ex, args[0], mut=True)
+        pos = args[1]
+        if not isinstance(pos, Ptr) or pos.rid != v.buf:
+            raise ExecError('vector::insert with a foreign iterator')
+        i = pos.off // es
+        val = ex.load(args[2], es, elem_kind())
+        vals = [ex.load(Ptr(v.buf, k * es), es, elem_kind()) for k in range(i, v.n)]
+        ex.st.mut(v.buf).size = (v.n + 1) * es
+        ex.store(Ptr(v.buf, i * es), es, val)
+        for k, x in enumerate(vals):
+            ex.store(Ptr(v.buf, (i + 1 + k) * es), es, x)
+        v.n += 1
+        ex.st.writes.append((args[0].rid, args[0].off, 8))
+        return pos
+
+    def assign_range(ex, args, inst):
+        v = get_vec(ex, args[0], mut=True)
+        a, b = args[1], args[2]
+        if isinstance(a, Ptr) and isinstance(b, Ptr) and a.rid == b.rid:
+            n = (b.off - a.off) // es
+            vals = [ex.load(Ptr(a.rid, a.off + k * es), es, elem_kind()) for k in range(max(n, 0))]
+        elif isinstance(a, int):
+            vals = [ex.load(b, es, elem_kind())] * a
+            n = a
+        else:
+            raise ExecError('vector::assign arguments %r %r' % (a, b))
+        ex.st.mut(v.buf).size = max(n, 0) * es
+        for k, x in enumerate(vals):
+            ex.store(Ptr(v.buf, k * es), es, x)
+        v.n = max(n, 0)
+        ex.st.writes.append((args[0].rid, args[0].off, 8))
+        return None
+
+    if name == 'assign':
+        return assign_range
+    table = {'erase': erase, 'insert': insert, 'vector': ctor, '~vector': dtor, 'operator=': assign, 'operator[]': index, 'size': size, 'empty': empty,
              'resize': resize, 'push_back': push_back, 'clear': clear, 'begin': begin, 'end': end,
              'at': at, 'front': front, 'back': back, 'pop_back': pop_back, 'reserve': nothing, 'data': data, 'capacity': size}
     if name not in table:
@@ -1052,9 +1141,60 @@ def map_method(vty, name, sig):
             raise ExecError('std::map::at: key not present (std::out_of_range)')
         return Ptr(rid, 8)
 
+    def bound(ex, args, inst):
+        m = get_map(ex, args[0])
+        key = get_str(ex, args[1]).v
+        if isinstance(key, str) and all(isinstance(k, str) for k, _ in m.entries):
+            for k, rid in m.entries:            # entries are kept sorted when all keys are concrete
+                if (k >= key) if name == 'lower_bound' else (k > key):
+                    return Ptr(rid, 0)
+            return Ptr(m.end, 0)
+        # symbolic keys: the position is only meaningful for the find-or-insert idiom -- the entry holding the key, else end()
+        rid = map_find(ex, m, key)
+        if rid is not None and name == 'lower_bound':
+            return Ptr(rid, 0)
+        return Ptr(m.end, 0)
+
+    def insert(ex, args, inst):
+        m = get_map(ex, args[0], mut=True)
+        hinted = sig.strip().startswith('std::__map_it')
+        vp = args[2] if hinted else args[1]
+        key = get_str(ex, vp).v
+        rid = map_find(ex, m, key)
+        fresh = rid is None
+        if fresh:
+            val = ex.load(Ptr(vp.rid, vp.off + 8), vsize, 'ptr' if vty.strip().endswith('*') else 'i32')
+            rid = map_insert(ex, m, key, val)
+            ex.st.writes.append((args[0].rid, args[0].off, 8))
+        if hinted:
+            return Ptr(rid, 0)
+        return {0: Ptr(rid, 0), 1: 1 if fresh else 0}
+
     table = {'map': ctor, '~map': dtor, 'operator[]': index, 'find': find, 'begin': begin, 'end': end,
-             'size': size, 'empty': empty, 'clear': clear, 'erase': erase, 'count': count, 'at': at}
+             'size': size, 'empty': empty, 'clear': clear, 'erase': erase, 'count': count, 'at': at,
+             'lower_bound': bound, 'upper_bound': bound, 'insert': insert}
     return table.get(name)
+
+
+def pair_ctor(vty, sig):
+    """std::pair<const std::string, V>: layout {string at 0, V at 8} (the layout of a map entry)"""
+    vsize = elem_size(vty)
+    parts = [x.strip() for x in sig.split(',')] if sig.strip() else []
+
+    def f(ex, args, inst):
+        p = args[0]
+        if not parts:
+            set_str(ex, p, '')
+            ex.store(Ptr(p.rid, p.off + 8), vsize, NULL if vty.strip().endswith('*') else 0)
+        elif len(parts) == 1:           # copy / converting copy from another pair
+            q = args[1]
+            set_str(ex, p, get_str(ex, q).v)
+            ex.store(Ptr(p.rid, p.off + 8), vsize, ex.load(Ptr(q.rid, q.off + 8), vsize, 'ptr' if vty.strip().endswith('*') else 'i32'))
+        else:
+            set_str(ex, p, get_str(ex, args[1]).v)
+            ex.store(Ptr(p.rid, p.off + 8), vsize, ex.load(args[2], vsize, 'ptr' if vty.strip().endswith('*') else 'i32'))
+        return None
+    return f
 
 
 def find_map_of_entry(ex, rid):
@@ -1093,6 +1233,19 @@ def mapit_method(name):
             return c        # post-increment returns old value
         return args[0]
 
+    def dec(ex, args, inst):
+        c = cur(ex, args[0])
+        m, i = find_map_of_entry(ex, c.rid)
+        if m is None:
+            raise ExecError('decrement of invalid map iterator')
+        if i == 0:
+            ex.st.event('oob', 'map-begin-decrement', ex.cur_fn)
+            raise ExecError('decrement of map begin iterator in %s' % ex.cur_fn)
+        ex.store(args[0], 8, Ptr(m.entries[i - 1][1], 0))
+        if len(args) > 1:
+            return c
+        return args[0]
+
     def ne(ex, args, inst):
         return 0 if cur(ex, args[0]) == cur(ex, args[1]) else 1
 
@@ -1107,5 +1260,5 @@ def mapit_method(name):
     def assign(ex, args, inst):
         ex.store(args[0], 8, cur(ex, args[1]))
         return args[0]
-    return {'operator*': deref, 'operator->': deref, 'operator++': inc, 'operator!=': ne, 'operator==': eq,
+    return {'operator*': deref, 'operator->': deref, 'operator++': inc, 'operator--': dec, 'operator!=': ne, 'operator==': eq,
             '__map_it': conv, 'operator=': assign}[name]
